@@ -456,7 +456,11 @@ class AbstractInversion:
                 mapper_zero_pixel_list.append(
                     np.where(source_pixels_zero == True)[0] + param_range[0]
                 )
-        return mapper_zero_pixel_list
+
+        if len(mapper_zero_pixel_list) == 0:
+            return np.array([], dtype="int")
+
+        return np.concatenate(mapper_zero_pixel_list)
 
     @cached_property
     @profile_func
